@@ -15,6 +15,51 @@ pub enum Case {
     /// the long-haul history of C01 in which a network duplicate of an old ack frame reaches the sender after the packet
     /// ids have come round once (see `c01::stale_ack_history`)
     StaleAck { long_haul: crate::props::c01::LongHaul },
+    /// a real Client and Server; packets submitted through the public API, also while the handshake is pending
+    Endpoints { endpoints: crate::sim::epstream::EpStream },
+}
+
+fn run_endpoints(c: &crate::sim::epstream::EpStream) -> CaseResult {
+    let out = crate::sim::epstream::run_epstream(c);
+    let mut classes: Vec<&'static str> = vec!["endpoints"];
+    let mut has_reliable = false;
+    for d in 0..2 {
+        let delivered_at = match crate::sim::epstream::check_order(c, &out, d) {
+            Ok(v) => v,
+            Err(v) => return CaseResult { violation: Some(v), nontrivial: true, classes },
+        };
+        // never skipped: a packet is not handed over while an earlier Reliable packet of its channel has not been
+        for (i, sub) in out.subs[d].iter().enumerate() {
+            if sub.2 != 3 {
+                continue;
+            }
+            has_reliable = true;
+            for later in out.subs[d][i + 1..].iter().filter(|s| s.1 == sub.1) {
+                if let Some(k) = delivered_at[later.0 as usize] {
+                    if delivered_at[i].map_or(true, |r| r > k) {
+                        return CaseResult::fail(
+                            "oracle:c02:endpoints:reliable_skipped",
+                            format!("direction {d}: submission {} (channel {}) was delivered as #{k} although the earlier Reliable submission {} of that channel {} ({} packets were submitted before the connection was established)", later.0, sub.1, sub.0, delivered_at[i].map_or("was never delivered".to_string(), |r| format!("came later, as #{r}")), if d == 0 { c.pre_sends.len() } else { 0 }),
+                        );
+                    }
+                }
+            }
+            // eventually: the fair phase ended with three quiet seconds and the connection is still up
+            if out.connected && out.alive && out.settled && delivered_at[i].is_none() {
+                return CaseResult::fail(
+                    "oracle:c02:endpoints:reliable_never_delivered",
+                    format!("direction {d}: Reliable submission {} (channel {}, {} bytes) was never delivered although the network has been loss-free and nothing has moved for 15 virtual minutes; send_buffer_size() client {} / server {}", sub.0, sub.1, sub.3, out.end_buffers[0], out.end_buffers[1]),
+                );
+            }
+        }
+    }
+    if out.connected && out.alive && out.settled && (out.end_buffers[0] != 0 || out.end_buffers[1] != 0) {
+        return CaseResult::fail("oracle:c02:endpoints:send_buffer_not_empty", format!("after the fair phase send_buffer_size() is {} (client) / {} (server)", out.end_buffers[0], out.end_buffers[1]));
+    }
+    if c.pre_sends.len() >= 2 && out.connected {
+        classes.push("endpoints_packets_submitted_before_the_connection_was_established");
+    }
+    CaseResult::ok(out.faulted > 0 && has_reliable, classes)
 }
 
 pub const STALL_US: u64 = 900_000_000; // 15 virtual minutes without any progress indicator moving
@@ -60,7 +105,8 @@ impl Check for C02 {
         // (a stale-ack case moves more than a million packets: about a second each, hence few)
         let stale = (any::<u64>(), prop_oneof![Just(0u32), 0u32..=PKT_MASK], prop_oneof![Just(0u32), (0u32..100_000).prop_map(|d| u32::MAX - d), any::<u32>()], prop_oneof![Just(0u32), 0u32..20_000], 0u16..3000, 5u8..60, 1u8..6)
             .prop_map(|(seed, pkt_base, frm_base, latency_us, delta, reliable_pct, channels)| Case::StaleAck { long_haul: crate::props::c01::LongHaul { seed, pkt_base, frm_base, latency_us, hold_ms: 2500, delta, reliable_pct, channels, stale_ack: true } });
-        prop_oneof![6000 => pair, 1 => stale].boxed()
+        let endpoints = crate::sim::epstream::epstream_strategy(tier.pick(150, 400)).prop_map(|endpoints| Case::Endpoints { endpoints });
+        prop_oneof![6000 => pair, 1 => stale, 900 => endpoints].boxed()
     }
 
     fn extra(&self, tier: Tier, seed: u64) -> ExtraResult {
@@ -84,7 +130,7 @@ impl Check for C02 {
     }
 
     fn rule(&self) -> String {
-        "case = SimPair scenario as in C01 (all four modes, faults on data / ack / sync frames in both directions, loss bursts, pauses) followed by a fair phase (no faults, both endpoints stepping at a generated cadence). Safety at every delivery: no packet is delivered while an earlier Reliable packet of its channel is undelivered. Bounded liveness: the fair phase must reach quiescence (every Reliable packet delivered exactly once, is_send_pending()==false, send_buffer_size()==0) without any 15-virtual-minute interval in which no progress indicator (deliveries, queue lengths, buffer size, allocation counters) moves. In about 4 of 10 scenarios one application keeps submitting a small packet (any mode, every step up to every 1.5 s) during the fair phase until the OTHER direction has nothing left to do; then only the silent direction is judged, by its own progress indicators, and the talker's packets join the send history. A few cases per run are the long-haul history of C01 with a stale acknowledgement: warm-up, 2^20 packets so that the ids come round, a burst (beginning with Reliable packets) whose data frames are all lost, then a network duplicate of the warm-up's last ack frame - its packet window base lies inside the sender's window again -, then 9000 more packets and quiet stepping on a loss-free network: every Reliable packet must arrive, nothing may stay pending. Non-trivial = a frame carrying (part of) a Reliable packet, or an ack frame, was dropped or corrupted, so a retransmission was actually needed. Distinct = distinct serialised scenario.".into()
+        "case = SimPair scenario as in C01 (all four modes, faults on data / ack / sync frames in both directions, loss bursts, pauses) followed by a fair phase (no faults, both endpoints stepping at a generated cadence). Safety at every delivery: no packet is delivered while an earlier Reliable packet of its channel is undelivered. Bounded liveness: the fair phase must reach quiescence (every Reliable packet delivered exactly once, is_send_pending()==false, send_buffer_size()==0) without any 15-virtual-minute interval in which no progress indicator (deliveries, queue lengths, buffer size, allocation counters) moves. In about 4 of 10 scenarios one application keeps submitting a small packet (any mode, every step up to every 1.5 s) during the fair phase until the OTHER direction has nothing left to do; then only the silent direction is judged, by its own progress indicators, and the talker's packets join the send history. About one case in eight is an Endpoints case: a real Client and Server on a faulty link, packets submitted through the public API - 0-11 of them right after connect(), while the handshake is pending -, then a loss-free phase until both send buffers are empty or nothing has moved for 15 virtual minutes: never skipped, every Reliable packet delivered, both send buffers empty (while the connection is up). A few cases per run are the long-haul history of C01 with a stale acknowledgement: warm-up, 2^20 packets so that the ids come round, a burst (beginning with Reliable packets) whose data frames are all lost, then a network duplicate of the warm-up's last ack frame - its packet window base lies inside the sender's window again -, then 9000 more packets and quiet stepping on a loss-free network: every Reliable packet must arrive, nothing may stay pending. Non-trivial = a frame carrying (part of) a Reliable packet, or an ack frame, was dropped or corrupted, so a retransmission was actually needed. Distinct = distinct serialised scenario.".into()
     }
 
     fn assumptions(&self) -> Vec<String> {
@@ -99,6 +145,7 @@ impl Check for C02 {
         let sc = match case {
             Case::Pair(sc) => sc,
             Case::StaleAck { long_haul } => return run_stale_ack(long_haul),
+            Case::Endpoints { endpoints } => return run_endpoints(endpoints),
         };
         let mut sc = sc.clone();
         sc.normalize();
